@@ -687,6 +687,13 @@ fn case_iter(kv: &Kv) -> String {
         }
     }
     let mut ref_same = same_ops(cap.ops(), cap2.ops());
+    // Capture::into_ops gives what ops() showed
+    {
+        let shown = ops_to_calls(cap2.ops());
+        if ops_to_calls(&cap2.into_ops()) != shown {
+            ref_same = false;
+        }
+    }
     // other ways through the same iterators: nth / skip / step_by after some items were consumed, size_hint bounds
     for op in &ops {
         let full: Vec<_> = op.iter_changes(&old[..], &new[..]).map(|c| (c.tag(), c.old_index(), c.new_index(), c.value())).collect();
